@@ -153,6 +153,8 @@ enum Act {
     Start(usize),
     Grant(usize),
     Reply(usize),
+    /// the peer closes the channel instead of answering
+    Close,
 }
 
 struct Caller {
@@ -190,6 +192,7 @@ fn run_schedule(cfg: &Cfg, ep: Ep, kinds: &[Kind], order: &[Act], case: &str) {
     let mut trace: Vec<String> = Vec::new();
     let mut owed: Vec<usize> = Vec::new(); // callers whose reply the peer owes (request read, reply not sent)
     let mut violation: Option<(String, String)> = None;
+    let mut closed = false;
     let deadline = Instant::now() + Duration::from_secs(20);
     let mut idle_rounds = 0;
     loop {
@@ -199,7 +202,7 @@ fn run_schedule(cfg: &Cfg, ep: Ep, kinds: &[Kind], order: &[Act], case: &str) {
             trace.push(format!("peer-read:{}", r.tag));
             // atomicity: no request may arrive while a reply is owed, or sent but not yet consumed
             let unconsumed = sys::inq(ep_fd) > 0;
-            if (!owed.is_empty() || unconsumed) && violation.is_none() {
+            if (!owed.is_empty() || unconsumed) && violation.is_none() && !closed {
                 violation = Some(("second-request-inside-transaction".into(), format!("request of caller {} arrived while the reply to caller(s) {:?} was {}", r.tag, owed.iter().map(|i| i + 1).collect::<Vec<_>>(), if unconsumed { "still unconsumed" } else { "owed" })));
             }
             if let Some(cl) = callers.get_mut(idx) {
@@ -229,6 +232,7 @@ fn run_schedule(cfg: &Cfg, ep: Ep, kinds: &[Kind], order: &[Act], case: &str) {
             Act::Start(i) => !callers[*i].started,
             Act::Grant(i) => waiting.iter().any(|w| w.label == labels[*i]),
             Act::Reply(i) => owed.contains(i),
+            Act::Close => !closed,
         });
         if let Some(p) = enabled {
             idle_rounds = 0;
@@ -250,15 +254,22 @@ fn run_schedule(cfg: &Cfg, ep: Ep, kinds: &[Kind], order: &[Act], case: &str) {
                     callers[i].started = true;
                     // let it run until it blocks somewhere (hold point, mutex or socket)
                     let t = callers[i].tid.clone();
+                    let hf = callers[i].handle.as_ref().expect("handle");
                     sys::wait_until(2000, || {
                         let tid = t.load(Ordering::SeqCst);
-                        tid > 0 && (c.waiting().iter().any(|w| w.label == label) || sys::parked_in(tid, &[sys::SYS_FUTEX, sys::SYS_RECVMSG]))
+                        hf.is_finished() || tid > 0 && (c.waiting().iter().any(|w| w.label == label) || sys::parked_in(tid, &[sys::SYS_FUTEX, sys::SYS_RECVMSG]))
                     });
                 }
                 Act::Grant(i) => {
                     if let Some(w) = waiting.iter().find(|w| w.label == labels[i]) {
                         c.grant(w.ticket);
                     }
+                }
+                Act::Close => {
+                    // no reply will ever come: every pending and every later call must fail, none may hang
+                    unsafe { libc::shutdown(peer_fd, libc::SHUT_RDWR) };
+                    owed.clear();
+                    closed = true;
                 }
                 Act::Reply(i) => {
                     owed.retain(|x| *x != i);
@@ -300,15 +311,23 @@ fn run_schedule(cfg: &Cfg, ep: Ep, kinds: &[Kind], order: &[Act], case: &str) {
         }
     }
     // every reply the peer wrote was consumed by the call it answers
-    if violation.is_none() && callers.iter().all(|cl| cl.done.is_some()) && sys::inq(ep_fd) > 0 {
+    if violation.is_none() && !closed && callers.iter().all(|cl| cl.done.is_some()) && sys::inq(ep_fd) > 0 {
         violation = Some(("reply-left-unread".into(), format!("all calls returned but {} reply bytes are still unread on the shared socket", sys::inq(ep_fd))));
     }
     // unblock everything and join
     c.free_run();
     unsafe { libc::shutdown(ep_fd, libc::SHUT_RDWR) };
+    let mut leaked = false;
     for cl in callers.iter_mut() {
         if let Some(h) = cl.handle.take() {
-            let _ = h.join();
+            // a caller dead-locked inside the library cannot be released by closing the socket:
+            // it is left behind and the process ends after the report
+            if sys::wait_until(3000, || h.is_finished()) {
+                let _ = h.join();
+            } else {
+                leaked = true;
+                std::mem::forget(h);
+            }
         }
         if cl.done.is_none() {
             if let Some(rx) = &cl.rx {
@@ -328,6 +347,8 @@ fn run_schedule(cfg: &Cfg, ep: Ep, kinds: &[Kind], order: &[Act], case: &str) {
             let want = expected_value(cl.kind, cl.tag);
             match &cl.done {
                 Some(Ok(v)) if *v == want => {}
+                // once the peer has closed, a call may fail - but it must have returned
+                Some(Err(_)) if closed => {}
                 other => {
                     violation = Some(("caller-got-foreign-or-no-reply".into(), format!("caller {} ({:?}) returned {:?}, expected its own tag {}", cl.tag, cl.kind, other, want)));
                     break;
@@ -339,6 +360,12 @@ fn run_schedule(cfg: &Cfg, ep: Ep, kinds: &[Kind], order: &[Act], case: &str) {
         report::violation(&format!("C10:{epn}:{sig}"), jo! {"endpoint" => epn.as_str(), "calls" => format!("{kinds:?}"), "schedule" => format!("{order:?}"), "trace" => trace.clone(), "why" => why}, cfg.replay(case));
     }
     report::sample(&format!("{epn}:{kinds:?}"), jo! {"endpoint" => epn.as_str(), "calls" => format!("{kinds:?}"), "interleaving_observed" => trace});
+    if leaked {
+        if report::violations_so_far() == 0 {
+            report::inconclusive(&format!("schedule {case}: a caller thread could not be released"));
+        }
+        std::process::exit(report::finish());
+    }
     drop(peer);
 }
 
@@ -404,6 +431,25 @@ fn schedules(cfg: &Cfg, rng: &mut Rng) {
                     continue;
                 }
                 run_schedule(cfg, ep, &ks, &p, &format!("sched:{idx}"));
+            }
+        }
+        // the peer closes the channel at every point of one and two transactions
+        for ks in [vec![Kind::R], vec![Kind::K], vec![Kind::F], vec![Kind::R, Kind::K], vec![Kind::K, Kind::K], vec![Kind::K, Kind::F]] {
+            let ks: Vec<Kind> = ks.into_iter().map(|k| match (ep, k) { (Ep::Be, Kind::R) => Kind::K, _ => k }).collect();
+            let mut acts = vec![Act::Close];
+            for i in 0..ks.len() {
+                acts.push(Act::Start(i));
+                acts.push(Act::Grant(i));
+            }
+            for p in permutations(&acts) {
+                if !well_formed(&p, ks.len()) {
+                    continue;
+                }
+                idx += 1;
+                if !cfg.mine(idx) {
+                    continue;
+                }
+                run_schedule(cfg, ep, &ks, &p, &format!("close:{idx}"));
             }
         }
         // three callers: sampled orders
@@ -525,7 +571,7 @@ pub fn run(cfg: &Cfg) {
     let mut c = cfg.clone();
     if let Some((p, idx)) = only.split_once(':') {
         if let Ok(i) = idx.parse::<u64>() {
-            if p == "sched" {
+            if p == "sched" || p == "close" {
                 c.only = None;
                 c.nshards = u64::MAX;
                 c.shard = i;
@@ -534,7 +580,7 @@ pub fn run(cfg: &Cfg) {
             }
         }
     }
-    if part.is_empty() || part == "all" || part.starts_with("sched") {
+    if part.is_empty() || part == "all" || part.starts_with("sched") || part == "close" {
         schedules(&c, &mut rng);
     }
     if (part.is_empty() && cfg.shard == 0) || part == "all" || part == "stress" {
